@@ -53,13 +53,13 @@ def _replay(case):
 ALL_OPS = ("append", "setitem", "delitem", "pop", "insert", "clear")
 
 
-def cfg_text(objs, items, mut, roots, mechs, emit, atoms=("x",), ops=ALL_OPS):
+def cfg_text(objs, items, mut, roots, mechs, emit, atoms=("x",), ops=ALL_OPS, children=("PVLGroup", "PVLObject")):
     q = lambda xs: "{" + ", ".join('"%s"' % x for x in xs) + "}"
     return ("SPECIFICATION Spec\nCONSTANT MaxObjs = %d\nCONSTANT MaxItems = %d\nCONSTANT MaxMut = %d\n"
-            "CONSTANT RootClasses = %s\nCONSTANT MechSet = %s\nCONSTANT Emit = %s\nCONSTANT AtomVals = %s\nCONSTANT MutNames = %s\n"
+            "CONSTANT RootClasses = %s\nCONSTANT MechSet = %s\nCONSTANT Emit = %s\nCONSTANT AtomVals = %s\nCONSTANT MutNames = %s\nCONSTANT ChildClasses = %s\n"
             "INVARIANT CopyEqual\nINVARIANT OrigIntact\nINVARIANT ClassesKept\nINVARIANT EmitCase\n"
             "PROPERTY Independent\nCHECK_DEADLOCK FALSE\n" %
-            (objs, items, mut, q(roots), q(mechs), "TRUE" if emit else "FALSE", q(atoms), q(ops)))
+            (objs, items, mut, q(roots), q(mechs), "TRUE" if emit else "FALSE", q(atoms), q(ops), q(children)))
 
 
 ALL_ROOTS = ["PVLModule", "PVLGroup", "PVLObject", "OrderedMultiDict"]
@@ -82,7 +82,15 @@ def run(ctx, rep):
             ("group root, 2 mutations on either side",
              cfg_text(2, 2, 2, ["PVLGroup"], ["copy_copy", "deepcopy"], True, ops=("append", "setitem", "pop", "clear"))),
             ("module root, 3 objects (two nesting levels), 1 mutation",
-             cfg_text(3, 2, 1, ["PVLModule"], some, True, ops=("setitem", "pop")))]
+             cfg_text(3, 2, 1, ["PVLModule"], some, True, ops=("setitem", "pop"))),
+            ("leaves a loader produces (missing-value placeholder, Quantity, datetime, Decimal, int, frozenset) x all mechanisms",
+             cfg_text(1, 2, 1, ["PVLModule"], ALL_MECHS, True, ("x", "@empty", "@qty", "@dt", "@dec", "@int", "@set"), ops=("append", "pop"))),
+            ("the same leaves inside a nested block",
+             cfg_text(2, 1, 1, ["PVLModule"], ALL_MECHS, True, ("x", "@empty", "@qty", "@dt", "@dec", "@int", "@set"), ops=("append", "pop"))),
+            ("mutable values below the top level: lists (loaded sequences) and Quantities holding a list, in modules and groups",
+             cfg_text(2, 2, 1, ["PVLModule"], ALL_MECHS, True, ("x", "@empty"), ops=("append", "pop", "clear"), children=("list", "qtylist"))),
+            ("lists and list-valued Quantities inside a group",
+             cfg_text(3, 1, 1, ["PVLModule"], ALL_MECHS, True, ("x",), ops=("append", "pop", "clear"), children=("PVLGroup", "list", "qtylist")))]
     if ctx.thorough:
         runs.append(("all classes x all mechanisms, <=2 objects x <=2 items", cfg_text(2, 2, 1, ALL_ROOTS, ALL_MECHS, True, ("x", "y"))))
         runs.append(("3 objects, all ops", cfg_text(3, 2, 1, ["PVLObject"], ALL_MECHS, True)))
@@ -103,7 +111,7 @@ def run(ctx, rep):
         r.raw = ""
         res = pool_map(_replay, cases)
         for c, out in zip(cases, res):
-            nontriv = any(i[1]["cls"] != "atom" for i in c["tree"]["items"]) or \
+            nontriv = any(i[1]["cls"] != "atom" or i[1]["s"].startswith("@") for i in c["tree"]["items"]) or \
                 len({i[0] for i in c["tree"]["items"]}) < len(c["tree"]["items"])
             rep.case("replay", json.dumps([c["tree"], c["mech"], [(s["side"], s["path"], s["o"]) for s in c["steps"]]]), nontriv)
             if out[0] == "fail":
